@@ -1194,13 +1194,18 @@ class PhasedVcfWriter(VcfAugmenter):
             pos = record.start
             if not record.alts:
                 continue
-            if len(record.alts) > 1 and not self._mav:
-                # we do not phase multiallelic sites unless requested
+            if len(record.alts) > 1 and (
+                not self._mav or len(record.alts) >= get_max_genotype_alleles()
+            ):
+                # we do not phase multiallelic sites unless requested, and never those with more
+                # alleles than VcfReader accepts: the phasing found at this position would belong
+                # to another record
                 continue
             if pos == prev_pos:
                 # duplicate position, skip it
                 continue
-            is_snv = len(str(record.ref)) == 1 and len(str(record.alts[0])) == 1
+            # same test as in VcfReader: all alternative alleles count
+            is_snv = len(str(record.ref)) == 1 and all(len(str(alt)) == 1 for alt in record.alts)
             if self._only_snvs and not is_snv:
                 continue
 
